@@ -190,7 +190,13 @@ func runC12(c *Ctx) {
 			fv := p.fieldVars(pkgPodInfo, "PodInfo", fld)
 			ok := false
 			prefersRequest := false
-			for _, in := range instrsIn(upf, isStoreToField(fv)) {
+			// (the assignment itself may have been moved into a setter method of the PodInfo: its receiver is then
+			// parameter 0 there as well)
+			for _, dh := range p.deepFind(upf, isStoreToField(fv), 1) {
+				in := dh.In
+				if g := in.Parent(); g != upf && (g.Signature.Recv() == nil || !strings.HasSuffix(typeKey(g.Signature.Recv().Type()), "pod_info.PodInfo")) {
+					continue
+				}
 				st := in.(*ssa.Store)
 				// the choice may have been moved into a helper "request's value, else the pod's": the helper's return
 				// of the request's value is then the place where the precedence is decided
